@@ -52,6 +52,8 @@ type run struct {
 	shape  string
 	rep    vegeta.Reporter // the reporter of the current history (report scenarios)
 	repHDR bool
+	// the JSON rendering of the histogram returned last, and a copy of what it read then
+	heldJSON, heldJSONCopy []byte
 }
 
 func newRun(prop string, tape *simrt.Tape, keep bool) *run {
